@@ -203,3 +203,15 @@ func SpecBlindScalar(c elliptic.Curve, d Mathint, ctx string) Mathint {
 //@ ensures BigVal(r) == old(BigVal(r)) && BigVal(s) == old(BigVal(s)) && BigVal(pub.X) == old(BigVal(pub.X)) && BigVal(pub.Y) == old(BigVal(pub.Y))
 //@ assigns none
 //@ end
+
+// BlindKeySignWithContext: ASSUMED (trusted). The signing path (Sign, signGeneric: nonce generation from an
+// AES-CTR stream, rejection sampling without a bound) is not verified here; what the rate-limited client relies
+// on is stated: on success r and s are fresh integers in [1, N-1], and nothing pre-existing is written.
+//
+//@ func BlindKeySignWithContext(rand io.Reader, skS *PrivateKey, skB *PrivateKey, hash []byte, context []byte) (r *big.Int, s *big.Int, err error)
+//@ trusted signing is not verified (see DESIGN.md, C13)
+//@ requires skS != nil && skS.Curve != nil && skS.X != nil && skS.Y != nil && skS.D != nil && skB != nil && skB.D != nil
+//@ ensures err == nil ==> r != nil && s != nil && r != s && fresh(r) && fresh(s) && BigVal(r) >= 1 && BigVal(s) >= 1 && BigVal(r) < ECOrder(skS.Curve) && BigVal(s) < ECOrder(skS.Curve)
+//@ ensures err != nil ==> r == nil && s == nil
+//@ assigns none
+//@ end
